@@ -1,4 +1,4 @@
-import ZbossModel.Proofs.Host
+import ZbossModel.Proofs.HostTrace
 /-! # C11 - any request reaches the NCP intact, fragments contiguous, each awaiting its ACK
 
 Phases `sendfrag … acked` are the transmission of a message: from taking the message lock M to
@@ -55,6 +55,71 @@ theorem C11_write_step (st : St) (i : Nat) (r : Req) (fuel : Nat) (hg : getReq s
       by_cases hc : q'.head? = some i <;> simp [hc, updReq, setQueue]
     rw [hacq] at this; exact this
   simp only [hok, Bool.not_true, Bool.false_eq_true, if_false, htr, if_true, updReq, emit, hout, hf.pack]
+
+/-- **contiguous, every history (whole-trace form)**: the complete output log of every event sequence - any
+    number of concurrent requests of any size, blocking or not, any ACK / response / timer / cancellation / close
+    / loss timing - is accepted by the message monitor `monStep`: a fragment numbered 0 is written only when no
+    message is open, a fragment numbered `f > 0` only when the open message is this request's and `f` is the
+    next fragment; a message stays open until its last fragment is written or its request ends -/
+theorem C11_trace (evs : List Ev) : ∃ m, monRun none (runEvents {} evs).2.flatten = some m := mon_accepts evs
+
+/-- the same without the monitor: whenever fragment `f > 0` of request `i` is written, the last data frame
+    written before it - in the whole history - is fragment `f - 1` of the same request, and the request did not
+    end in between.  Hence the fragments of one message are never interleaved with data frames of another -/
+theorem C11_contiguous (evs : List Ev) (pre post : List Out) (i f s n : Nat) (hf : 0 < f)
+    (hlog : (runEvents {} evs).2.flatten = pre ++ [.write i f s n] ++ post) :
+    ∃ pre1 mid s', pre = pre1 ++ [.write i (f - 1) s' n] ++ mid ∧
+      ∀ o ∈ mid, isWrite o = false ∧ isDoneOf i o = false :=
+  contiguous_of_accepts _ pre post i f s n hf (C11_trace evs) hlog
+
+/-- a message is abandoned for good: once a request has ended, none of its fragments `f > 0` is ever written -/
+theorem C11_no_fragment_after_end (evs : List Ev) (pre post : List Out) (i f s n : Nat) (hf : 0 < f) (o : Outcome)
+    (hlog : (runEvents {} evs).2.flatten = pre ++ [.write i f s n] ++ post) (s' : Nat) (a b : List Out)
+    (hpre : pre = a ++ [.write i (f - 1) s' n] ++ b) (hb : ∀ x ∈ b, isWrite x = false) : Out.done i o ∉ b := by
+  obtain ⟨pre1, mid, s'', he, hfree⟩ := C11_contiguous evs pre post i f s n hf hlog
+  -- the two decompositions of `pre` around its last data frame coincide
+  have hlast : ∀ (l1 l2 m1 m2 : List Out) (w1 w2 : Out), l1 ++ [w1] ++ m1 = l2 ++ [w2] ++ m2 → isWrite w1 = true →
+      isWrite w2 = true → (∀ x ∈ m1, isWrite x = false) → (∀ x ∈ m2, isWrite x = false) → m1 = m2 := by
+    intro l1 l2 m1 m2 w1 w2 h hw1 hw2 h1 h2
+    have hr : m1.reverse ++ w1 :: l1.reverse = m2.reverse ++ w2 :: l2.reverse := by
+      have := congrArg List.reverse h
+      simpa using this
+    have key : ∀ (a b : List Out) (x y : Out) (p q : List Out), a ++ x :: p = b ++ y :: q → isWrite x = true →
+        isWrite y = true → (∀ z ∈ a, isWrite z = false) → (∀ z ∈ b, isWrite z = false) → a = b := by
+      intro a
+      induction a with
+      | nil =>
+        intro b x y p q h hx hy _ hb
+        cases b with
+        | nil => rfl
+        | cons z zs =>
+          simp only [List.nil_append, List.cons_append, List.cons.injEq] at h
+          have := hb z (List.mem_cons_self ..)
+          rw [← h.1, hx] at this; cases this
+      | cons z zs ih =>
+        intro b x y p q h hx hy ha hb
+        cases b with
+        | nil =>
+          simp only [List.nil_append, List.cons_append, List.cons.injEq] at h
+          have := ha z (List.mem_cons_self ..)
+          rw [h.1, hy] at this; cases this
+        | cons z' zs' =>
+          simp only [List.cons_append, List.cons.injEq] at h
+          rw [h.1, ih zs' x y p q h.2 hx hy (fun t ht => ha t (List.mem_cons_of_mem _ ht))
+            (fun t ht => hb t (List.mem_cons_of_mem _ ht))]
+    have := key m1.reverse m2.reverse w1 w2 _ _ hr hw1 hw2 (fun z hz => h1 z (List.mem_reverse.mp hz))
+      (fun z hz => h2 z (List.mem_reverse.mp hz))
+    simpa using congrArg List.reverse this
+  have hmid : b = mid := hlast a pre1 b mid _ _ (by rw [← hpre, he]) rfl rfl hb (fun x hx => (hfree x hx).1)
+  intro hmem
+  rw [hmid] at hmem
+  have := (hfree _ hmem).2
+  simp [isDoneOf] at this
+
+/-! ## non-vacuity: a three-fragment request cancelled after its second fragment, then a two-fragment request:
+    the log is accepted, the second message starts only after the first has ended -/
+example : ((runEvents {} [.start 1 4 false 3 3013, .start 2 4 false 2 5026, .rxAck 0, .cancel 1, .rxAck 1, .rxAck 2]).2.flatten) =
+    [.write 1 0 0 3, .write 1 1 1 3, .done 1 .cancelled, .write 2 0 1 2, .write 2 1 2 2] := by decide +kernel
 
 /-! ## non-vacuity: two concurrent two-fragment requests - the D9 scenario of the pinned tree: the wire
     order is first(1), last(1), first(2), last(2) -/
